@@ -2515,9 +2515,11 @@ bool IGXMLScanner::scanStartTagNS(bool& gotData)
     }
     else if (fGrammarType == Grammar::SchemaGrammarType)
     {
-        // An xsi:nil on an element that is not assessed (skip/lax wildcard)
-        // must not be taken for an attribute of the next validated element
+        // An xsi:nil or xsi:type on an element that is not assessed (skip/lax
+        // wildcard) must not be taken for an attribute of the next validated
+        // element
         ((SchemaValidator*)fValidator)->resetNillable();
+        ((SchemaValidator*)fValidator)->resetXsiType();
     }
 
     if (fGrammarType == Grammar::SchemaGrammarType) {
